@@ -4,7 +4,7 @@ from assemble import Item
 
 NAME = 'radix'
 PRELUDE = ['base', 'bigint', 'float', 'rational', 'opaque']
-SPECS = ['radix.rs', 'radix_from.rs', 'arith.rs']
+SPECS = ['radix.rs', 'radix_from.rs', 'obj_from_bigint.rs', 'arith.rs']
 DEPS = ['nint', 'nnum', 'coretypes']
 NEEDS_EXPANDED = True
 
